@@ -100,6 +100,7 @@ PARSE_INT_MSG = {'Empty': 'cannot parse integer from empty string', 'InvalidDigi
 def render_display(M, r, out, ty_hint=None):
     v = r
     while isinstance(v, (Ref, BoxV)):
+        r = v if isinstance(v, Ref) else Ref(v.cell)      # innermost reference: the one that points at the value itself
         v = M.rd(v)
     if isinstance(v, Str): out.extend(v.bytes()); return
     if isinstance(v, StringV): out.extend(v.data); return
@@ -152,6 +153,7 @@ def render_any(M, v, out):
 def render_debug(M, r, out):
     v = r
     while isinstance(v, (Ref, BoxV)):
+        r = v if isinstance(v, Ref) else Ref(v.cell)
         v = M.rd(v)
     if isinstance(v, (Str, StringV)):
         s = as_str(M, v)
